@@ -188,7 +188,7 @@ class Conn:
             self.send(isserver, 22, b"".join(msgs[i:i + g]), "hs")
             i += g
 
-    def handshake(self, shape="full", server_group=None, client_group=None, tickets=0, ticket_before_ccs=False, hs13_group=None, pad13=0):
+    def handshake(self, shape="full", server_group=None, client_group=None, tickets=0, ticket_before_ccs=False, hs13_group=None, pad13=0, hs13_cuts=None):
         r = self.rng
         self.send(False, 22, self.client_hello(), "ch")
         if self.version == "TLS13":
@@ -199,6 +199,13 @@ class Conn:
             msgs = [hs_msg(8, b"\x00\x00"), hs_msg(11, b"\x00" + (3 + 5 + 60).to_bytes(3, "big") + (60).to_bytes(3, "big") + self.rb(60) + b"\x00\x00"),
                     hs_msg(15, b"\x08\x04\x00\x40" + self.rb(64)), hs_msg(20, self.rb(32 if self.d["hash"] == "SHA256" else 48))]
             grouping = hs13_group or [len(msgs)]
+            if hs13_cuts is not None:
+                # RFC 8446 5.1: handshake messages may be fragmented across records at any byte (a record holds at least one byte)
+                flight, o = b"".join(msgs), 0
+                for c in sorted(set(x % len(flight) for x in hs13_cuts if x % len(flight))) + [len(flight)]:
+                    self.send(True, 22, flight[o:c], "hs", pad=pad13)
+                    o = c
+                grouping = []
             i = 0
             for g in grouping:
                 self.send(True, 22, b"".join(msgs[i:i + g]), "hs", pad=pad13)
